@@ -193,7 +193,7 @@ def snap(v, depth=0):
         d = getattr(v, "__dict__", None)
         dt = _dt(v)
         return ("nd", type(v).__name__, str(dt.descr) if dt.names else str(dt), 0, dt.names,
-                v.shape, v.strides, v.flags.writeable,
+                v.shape, 0, 0,   # strides / writeable flag are not operand state in the sense of C16 (content is compared below)
                 hashlib.sha256(v.view(numpy.ndarray).tobytes()).hexdigest()[:24] if dt != object else repr(v.tolist()),
                 tuple(sorted((k, getattr(x, "__name__", repr(x))) for k, x in d.items() if k in _COORD_KEYS)) if d else (), bsnap)
     if isinstance(v, numpy.dtype):
